@@ -45,13 +45,13 @@ def warmup():
 def gen_cases(tier, seed):
     keys = []
     depth = 2 if tier == "quick" else 3
-    roots = H.root_keys(tier, ["disl", "yield"], dev=1 if tier == "quick" else 2, prms=PRMS)
+    roots = H.root_keys(tier, ["disl", "yield"], dev=1, prms=PRMS)
     for k in roots:
         for fi, fr in enumerate(FRACS):
             for order in ("own_first", "own_last"):
                 # deviations: fraction pair and ordering deviate one at a time from (0.7,0.3)/own_first
                 ndev = (fi != 0) + (order != "own_first") + sum(k[a] != d for a, d in (("tex", "random"), ("vol", "uniform"), ("ng", 5), ("prm", "default")))
-                if ndev <= (1 if tier == "quick" else 2) or (fi != 0 and order != "own_first" and ndev <= 2):
+                if ndev <= 1 or (fi != 0 and order != "own_first" and ndev <= 2):
                     keys.append(dict(k, part="single", frac=fi, order=order, depth=depth))
                     keys.append(dict(k, part="perm", frac=fi, order=order, depth=depth))
     for fi in range(len(FRACS)):
